@@ -437,8 +437,9 @@ void top_level_op(World& W, Choices& c)
   }
   if (is_prop("C20"))
   {
-    switch (c.weighted({5, 6, 2, 3, 2, 2, 1, 2}))
+    switch (c.weighted({5, 6, 2, 3, 2, 2, 1, 2, kBounded ? 0u : 1u}))
     {
+    case 8: op_shrink_chain_then_pair(W); break; // 2..4 shrinks in a row, then this thread and another one log
     case 7: op_flush(W, pick_worker(W), false, 0); break; // the backend also reclaims right after a Flush event
     case 0: op_poll(W, true); break;
     case 1: op_log(W, pick_worker(W), false, 0); break;
